@@ -471,6 +471,9 @@ func verifyFunc(p *Program, cx *Contracts, cfg *PropConfig, ct *Contract) *FuncR
 			e.obls = append(e.obls, o)
 		}
 	}
+	if ct.DryRun {
+		e.dryRunCover(fn, args, outs)
+	}
 	res.ClauseErrs = append(res.ClauseErrs, e.clauseErrs...)
 	res.Paths = nReturn
 	res.Obls = e.obls
@@ -562,4 +565,98 @@ func lastKey(k string) string {
 		return k[i+1:]
 	}
 	return k
+}
+
+// dryRunCover implements tier (ii) of C15 for a function reached from a governance proposal handler: a panic site is
+// covered by the submission dry-run when (a) its guard mentions only values derived from the function's non-context,
+// non-store parameters (the proposal content) and constants, and (b) the site is evaluated on every path of the
+// function that can return a nil error.  The SDK runs the same handler on the same content at submission; a panic
+// there rejects the proposal, so the guard holds for every proposal that can reach EndBlock.
+func (e *Env) dryRunCover(fn *ssa.Function, args []Val, outs []Out) {
+	// (a) symbols the proposal content is made of
+	content := map[string]bool{}
+	for i, prm := range fn.Params {
+		t := prm.Type().String()
+		if isCtxType(prm.Type()) || strings.Contains(t, "KVStore") || strings.Contains(t, "codec.") {
+			continue
+		}
+		if i < len(args) {
+			for k := range identSet(e.term(e.oldState, args[i])) {
+				content[k] = true
+			}
+		}
+	}
+	// (b) the paths that may return a nil error: decided by the solver (auxiliary cover queries), so that an
+	// error built by a wrapper (nil iff the wrapped error is nil) is not mistaken for a success path
+	var nilPaths []*Obligation
+	for i, o := range outs {
+		if o.st.dead || o.st.panics != "" {
+			continue
+		}
+		res := o.res
+		if res.K == kTuple && len(res.Elems) > 0 {
+			res = res.Elems[len(res.Elems)-1]
+		}
+		if res.K == kIface {
+			continue // a concrete (non-nil) error value
+		}
+		pc := append([]string(nil), o.st.pc...)
+		if res.K == kTerm && res.Sort == sIface {
+			if tEq(res.T, "nilI") == "false" {
+				continue
+			}
+			pc = append(pc, tEq(res.T, "nilI"))
+		}
+		ao := &Obligation{Fn: e.curName, Kind: "aux", Label: fmt.Sprintf("nil-return-path#%d", i+1), PC: pc, Goal: "true", Cover: true, decls: e.D, env: e, Detail: "auxiliary query for the dry-run cover: can this path return a nil error?"}
+		ao.defs = append([]string(nil), o.st.defs...)
+		ao.nilPathSites = o.st.sites
+		e.obls = append(e.obls, ao)
+		nilPaths = append(nilPaths, ao)
+	}
+	for _, ob := range e.obls {
+		if ob.Kind != "nopanic" || ob.Site == "" {
+			continue
+		}
+		ob.dryStateFree = true
+		for k := range identSet(ob.Goal) {
+			if _, isConst := e.D.consts[k]; !isConst {
+				continue
+			}
+			if content[k] || strings.HasPrefix(k, "lit") || strings.HasPrefix(k, "g_") || k == "nilStr" || k == "emptyStr" || k == "nilI" {
+				continue
+			}
+			ob.dryStateFree, ob.dryCulprit = false, k
+			break
+		}
+		ob.dryPaths = nilPaths
+		ob.dryFn = fn.Name()
+	}
+}
+
+// finalizeDryRun decides, after the solvers ran, which failing panic-site obligations are covered by the dry-run.
+func finalizeDryRun(all []*Obligation) {
+	for _, ob := range all {
+		if ob.Kind != "nopanic" || ob.dryFn == "" || ob.Status != "sat" {
+			continue
+		}
+		if !ob.dryStateFree {
+			ob.Detail += " [not covered by the dry-run: the guard depends on " + ob.dryCulprit + ", which is not derived from the proposal content]"
+			continue
+		}
+		onAll, n := true, 0
+		for _, p := range ob.dryPaths {
+			if p.Status == "unsat" {
+				continue // this path cannot return nil
+			}
+			n++
+			if !p.nilPathSites[ob.Site] {
+				onAll = false
+			}
+		}
+		if onAll && n > 0 {
+			ob.Covered = "panic site covered by the governance submission dry-run: its guard depends on the proposal content only and the site lies on every nil-returning path of " + ob.dryFn
+		} else {
+			ob.Detail += " [not covered by the dry-run: a nil-returning path does not pass this site]"
+		}
+	}
 }
